@@ -128,20 +128,14 @@ func genFuzz(r *lib.RNG, thorough bool) (*Scenario, *World) {
 }
 
 // leadScenario is the fixed UNdisciplined history of `timeout_before_start_breaks_one_vote`
-// (Props.lean): timeouts delivered before ProcessStart make validator 3 prevote 8 and nil in
-// (height 0, round 0). It is replayed on the real machine to show that the model's witness is the
+// (Props.lean): a timeout delivered before ProcessStart (one that matches the height, round and step:
+// since cd6cea9 any other is ignored) makes validator 3 prevote nil and 8 in (height 0, round 0). It is replayed on the real machine to show that the model's witness is the
 // real behaviour; it is not a violation (the driver never delivers a timeout to an unstarted height).
 func leadScenario() *Scenario {
-	stale := In{Kind: "to", Step: 2, H: 7, R: 0}
-	pv := func(r, s int, v uint64) In { return In{Kind: "pv", H: 0, R: r, Sender: s, Value: v} }
 	ins := []In{
-		{Kind: "prop", H: 0, R: 0, Sender: 0, VR: -1, Value: 8}, stale,
-		pv(0, 0, 8), pv(0, 2, 8), stale,
-		{Kind: "pc", H: 0, R: 0, Sender: 0, Nil: true}, {Kind: "pc", H: 0, R: 0, Sender: 2, Nil: true}, stale,
-		{Kind: "to", Step: 2, H: 0, R: 0},
-		{Kind: "prop", H: 0, R: 1, Sender: 1, VR: -1, Value: 12}, stale,
-		pv(1, 0, 12), pv(1, 1, 12), pv(1, 2, 12), stale,
-		{Kind: "start", R: 0},
+		{Kind: "prop", H: 0, R: 0, Sender: 0, VR: -1, Value: 8}, // buffered: the height is not started
+		{Kind: "to", Step: 0, H: 0, R: 0},                       // matches (0,0,propose): prevote nil although not started
+		{Kind: "start", R: 0},                                   // round 0 again, step propose: line 22 prevotes 8
 	}
 	sc := &Scenario{Cfg: Cfg{Powers: []uint64{1, 1, 1, 1}, Total: 4, VMod: 4, VRem: 3, PMul: 1, Tbl: []int{0, 1, 2, 3}},
 		Nodes: []NodeSpec{{Node: 3, Height: 0, VBase: 400, VStep: 4}}}
@@ -186,10 +180,19 @@ func runNilValueLead(res *lib.Result) {
 		sm.ProcessProposal(&types.Proposal[Val, Hsh, Adr]{MessageHeader: types.MessageHeader[Adr]{Height: 0, Round: 0, Sender: addr(0)}, ValidRound: -1})
 		return nil
 	})
-	if acts := sm.ProcessTimeout(types.Timeout{Step: types.Step(7), Height: 0, Round: 0}); acts == nil {
+	// an unknown Step value: no case of the switch applies (probed on a machine of its own: the one above
+	// holds the nil-Value proposal, any run of the rules on it panics)
+	sm2 := newSM(cfg, NodeSpec{Node: 1, Height: 0, VBase: 800, VStep: 4})
+	sm2.ProcessStart(0)
+	n := -1
+	_, p2, _ := lib.Try(func() error {
+		n = len(sm2.ProcessTimeout(types.Timeout{Step: types.Step(7), Height: 0, Round: 0}))
+		return nil
+	})
+	if !p2 && n == 0 {
 		res.Hit("ProcessTimeout(unknown step)=nil")
 	} else {
-		res.Mismatch(lib.Mismatch{Sig: "timeout-unknown-step", Input: "step 7", Model: "nil (fall-through of the switch)", Impl: fmt.Sprint(len(acts))})
+		res.Mismatch(lib.Mismatch{Sig: "timeout-unknown-step", Input: "step 7", Model: "nil (no case of the switch applies)", Impl: fmt.Sprintf("%d actions, panicked=%v", n, p2)})
 	}
 	if panicked {
 		res.Hit("lead/proposal-with-nil-Value:state-machine-panics(nil dereference in findProposal)")
